@@ -57,6 +57,20 @@ def elem(kind, i):
 
 
 def recv_src(kind, n):
+    # receivers that a built-in PRODUCED (the same values as the literals): a range converted by A, a concatenation, a decoded JSON text, a join, a case conversion
+    if kind == "arr:rangeA":
+        return f"(10:{10 + n}).A"
+    if kind == "arr:concat":
+        h = n // 2
+        return "([" + ", ".join(str(10 + i) for i in range(h)) + "] + [" + ", ".join(str(10 + i) for i in range(h, n)) + "])"
+    if kind == "arr:json":
+        return "JSON.dec(`[" + ", ".join(str(10 + i) for i in range(n)) + "]`)"
+    if kind == "ascii:join":
+        return "[" + ", ".join(quote(c) for c in ASCII[:n]) + '].join("")'
+    if kind == "multi:join":
+        return "[" + ", ".join(quote(c) for c in MULTI[:n]) + '].join("")'
+    if kind == "ascii:lc":
+        return quote(ASCII[:n].upper()) + ".lc"
     if kind.startswith("arr"):
         return "[" + ", ".join(elem(kind, i) for i in range(n)) + "]"
     return quote(CHARS[kind][:n])
@@ -68,12 +82,12 @@ def expected(kind, n, case):
         p = pos[0]
         if p < 0:
             return "val:nil"
-        return "val:" + (elem(kind, p) if kind.startswith("arr") else goquote(CHARS[kind][p]))
+        return "val:" + (elem(kind, p) if kind.startswith("arr") else goquote(CHARS[kind.split(":")[0]][p]))
     if case["c"] == 0:
         return "err:ValueErr"
     if kind.startswith("arr"):
         return "val:[" + ", ".join(elem(kind, p) for p in pos) + "]"
-    chars = CHARS[kind]
+    chars = CHARS[kind.split(":")[0]]
     return "val:" + goquote("".join(chars[p] for p in pos))
 
 
@@ -128,7 +142,8 @@ def run():
     reqs, meta = [], {}
     for ci, case in enumerate(cases):
         infs = [v for v in (case["a"], case["b"], case["c"]) if v in (PINF, NINF)]
-        for kind in ("arr", "arrnil", "arrzero", "ascii", "multi", "bound"):
+        built = ("arr:rangeA", "arr:concat", "arr:json", "ascii:join", "multi:join", "ascii:lc")
+        for kind in ("arr", "arrnil", "arrzero", "ascii", "multi", "bound") + ((built[ci % len(built)],) if not thorough else built):
             for j in (range(3) if infs else range(1)):
                 form = 0
                 h = (ci * 7 + j) % 40
@@ -176,7 +191,7 @@ def run():
     ck.cov["exhaustive"] = True
     ck.cov["rule"] = (f"TLC enumerates every (n,start,stop,step) with n in 0..{maxn}, bounds in -n-2..n+2 plus nil, +inf, -inf "
                       "(inf instantiated as 2^31, 2^62, 2^63-1 / negatives) and every single index; each is replayed on an array of ints, an array with nil elements, "
-                      "an array of zero values, an ASCII string and two multi-byte strings; non-trivial = non-empty selection with an omitted, out-of-range or huge bound")
+                      "an array of zero values, an ASCII string and two multi-byte strings, and on the same values produced by built-ins (range.A, +, JSON.dec, join, lc); non-trivial = non-empty selection with an omitted, out-of-range or huge bound")
     ck.assumptions = ["the worker's canonical rendering of arrays/strings is faithful (checked by pv selftest)",
                       "2^31/2^62/2^63-1 stand for every bound beyond the window"]
     if not nontrivial:
